@@ -41,6 +41,21 @@ ONE_LINERS = ['COMMIT', 'ROLLBACK', 'TRUNCATE TABLE t', 'MERGE INTO t USING s ON
               'END', 'DECLARE c CURSOR', '1', "'select'", '"select" a', 'UPSERT INTO t VALUES ( 1 )']
 
 
+# WITH statements whose main keyword is followed by a parenthesis, AS or a column list ("ignoring everything after the
+# leading keyword"): the type is the DML keyword after the CTE definitions
+CTE_LINERS = [('WITH x AS ( SELECT 1 AS a ) SELECT ( a ) FROM x', 'SELECT'), ('WITH x AS ( SELECT 1 ) SELECT ( SELECT 2 ) , a FROM x', 'SELECT'),
+              ('WITH v AS ( SELECT 1 ) UPDATE ( SELECT * FROM t ) SET a = 1', 'UPDATE'), ('WITH x AS ( SELECT 1 ) SELECT AS STRUCT a FROM x', 'SELECT'),
+              ('WITH x AS ( SELECT 1 ) , y ( c ) AS ( SELECT 2 ) DELETE FROM t', 'DELETE'), ('WITH x AS ( SELECT 1 ) INSERT INTO t ( a ) SELECT * FROM x', 'INSERT'),
+              ('WITH RECURSIVE r ( n ) AS ( SELECT 1 ) SELECT ( n ) + 1 FROM r', 'SELECT'), ('WITH x AS ( SELECT 1 ) MERGE INTO t USING x ON a = b', 'MERGE'),
+              ('WITH x AS ( SELECT 1 ) SELECT DISTINCT ( a ) FROM x', 'SELECT'), ('WITH x AS ( SELECT 1 ) INSERT INTO t SELECT ( a ) FROM x', 'INSERT')]
+
+
+def cte_liner(t):
+    st_ = one_liner(t[0])
+    st_[0][3]['type'] = t[1]
+    return st_
+
+
 def one_liner(text):
     words = text.split()
     lex = []
@@ -55,6 +70,10 @@ def one_liner(text):
             lex.append(L('str' if w[0] == "'" else 'qname', w))
         elif w == '=':
             lex.append(L('cmp', '='))
+        elif w == ',':
+            lex.append(G.P(','))
+        elif w in '*+':
+            lex.append(G.opl(w))
         elif w.isupper():
             lex.append(kw(w))
         else:
@@ -86,7 +105,7 @@ def cases(draw, hazard):
     all_items = [draw(st.lists(PREFIX_ITEM, max_size=4)) for _ in range(k)]       # small things first
     semis = draw(st.booleans())
     for i in range(k):
-        s = draw(st.one_of(G.statement(True), G.statement(True), G.statement(True), st.sampled_from(ONE_LINERS).map(one_liner), paren_led))
+        s = draw(st.one_of(G.statement(True), G.statement(True), G.statement(True), st.sampled_from(ONE_LINERS).map(one_liner), st.sampled_from(CTE_LINERS).map(cte_liner), paren_led))
         items = all_items[i]
         pre = ''
         for it in items:
